@@ -471,6 +471,16 @@ func (m *Matcher) match(pattern interface{}, fact interface{}, bindings Bindings
 			}
 			binding, found := bs[vv]
 			if found {
+				if s, is := binding.(string); is && m.IsVariable(s) {
+					// A bound value is data: A string that
+					// looks like a variable is compared and
+					// not looked up again (which wouldn't
+					// end for "?x" bound to "?x").
+					if fs, is := fact.(string); is && fs == s {
+						return []Bindings{bs}, nil
+					}
+					return nil, nil
+				}
 				return m.match(binding, fact, bindings)
 			} else {
 				// add new binding
